@@ -15,6 +15,7 @@ def run(check):
     check.guarded("FRESH-TEMP", X.rule_fresh_temp)
     check.guarded("KEPT-IN-PLACE", X.rule_kept_in_place)
     check.guarded("OPTCHAIN-LOWERING", X.rule_optchain_lowering)
+    check.guarded("OPTCHAIN-LINK-FLAG", X.rule_optchain_link_flag)
     check.guarded("METHOD-NAME-KEPT", X.rule_method_name_kept)
     check.guarded("OPTCHAIN-SPINE", X.rule_optchain_spine)
     check.guarded("INPUT-UNTOUCHED", X.rule_input_untouched)
